@@ -341,7 +341,7 @@ def run_shards(prop, tier, seed, nshards, budget_s, wall_cap_s):
     return merged
 
 
-def worker_main(prop, args):
+def worker_main(prop, args, cov=None):
     import resource
     import signal
     ctx = Ctx(prop, args.tier, args.seed, args.shard, args.nshards, args.budget)
@@ -356,8 +356,9 @@ def worker_main(prop, args):
         raise ShardTerminated()
     signal.signal(signal.SIGTERM, on_term)
     from . import taps
-    cov = taps.LineCoverage()
-    cov.start()
+    if cov is None:
+        cov = taps.LineCoverage()
+        cov.start()
     extra = {}
     rc = 0
     try:
@@ -420,6 +421,9 @@ def main_check(prop, tier, seed):
     lines_total = merge_lines(merged.extra)
     fin.setdefault('extra', {})['lines_hit'] = lines_total
     inconclusive = list(fin.get('inconclusive') or [])
+    for f in anchored_files(prop.ID):
+        if lines_total.get(f, {}).get('hit', 0) == 0:
+            inconclusive.append('anchored file %s was never executed by this run' % f)
     if merged.shards_failed:
         inconclusive.append('%d shard(s) died or hit the wall-clock watchdog' % len(merged.shards_failed))
     if merged.evaluations == 0:
@@ -469,6 +473,20 @@ def main_check(prop, tier, seed):
             print('INCONCLUSIVE property=%s reason=%s' % (prop.ID, r))
         return EXIT_INCONCLUSIVE
     return EXIT_HELD
+
+
+def anchored_files(prop_id):
+    """Files of the code under test that the property is anchored in (properties.jsonl)."""
+    out = []
+    try:
+        with open(os.path.join(HOME, 'properties.jsonl')) as f:
+            for line in f:
+                p = json.loads(line)
+                if p['id'] == prop_id:
+                    out = [x for x in p['anchors']['files'] if x.startswith('mistletoe/') and x.endswith('.py')]
+    except (OSError, ValueError, KeyError):
+        pass
+    return out
 
 
 def merge_lines(extras):
